@@ -25,6 +25,14 @@ def opsCtc (op : String) (ins outs : List String) : Option String :=
     let i ← parseBox inb; let o ← parseBox outb
     pure (if Box.subset o i then (if showBox o == showBox i then "ok nocontract" else if Box.isEmpty o then "ok emptied" else "ok contract")
           else "FAIL output-not-in-input")
+  | "ctckeep", [_, inb, pt], [outb] => do
+    -- constraints with elementary functions: the point is feasible by construction (MPFR oracle of the harness)
+    let i ← parseBox inb; let p ← parsePoint pt; let o ← parseBox outb
+    if !(Box.subset o i) then pure "FAIL not-contracting" else
+    let wasIn := i.length == p.length && (List.zip p i).all fun q => ratIn q.1 q.2
+    if !wasIn then pure "ok point-not-in-the-input-box" else
+    let inside := !Box.isEmpty o && o.length == p.length && (List.zip p o).all fun q => ratIn q.1 q.2
+    pure (if inside then "ok feasible-kept elementary" else "FAIL feasible-point-removed")
   | "ctcpt", [dags, specs, pt], [outb] => do
     let ds ← (dags.splitOn "|").mapM parseProgram
     let ss := specs.splitOn "|"
